@@ -1,3 +1,5 @@
+//! `deep text <unit, hex of its UTF-8> <count>`: the unit repeated `count` times through escape / unescape / strip
+//! (C12's string-to-string laws), same conventions.
 //! `deep <code point, hex> <run length> <shape 0..5>`: parse one very long text as a game version on the main
 //! thread (default 8 MiB stack) of a process built without optimisation.  Prints `parsed`, `rejected`, or a
 //! failure class on the first line; exit 0 = fine, 1 = the property is broken; dying = the parent's verdict.
@@ -5,8 +7,57 @@ use std::str::FromStr;
 
 use insim_core::game_version::GameVersion;
 
+/// Reference colour stripper (as in the harness): delete ^0..^9, keep ^^ atomic.
+fn ref_strip(s: &str) -> String {
+    let cs: Vec<char> = s.chars().collect();
+    let mut out = String::new();
+    let mut i = 0;
+    while i < cs.len() {
+        if cs[i] == '^' && i + 1 < cs.len() {
+            if cs[i + 1] == '^' { out.push_str("^^"); i += 2; continue; }
+            if cs[i + 1].is_ascii_digit() { i += 2; continue; }
+        }
+        out.push(cs[i]);
+        i += 1;
+    }
+    out
+}
+
+fn text_mode(a: &[String]) -> i32 {
+    use insim_core::string::{colours::strip, escaping::{escape, unescape}};
+    let unit: Option<Vec<u8>> = a.get(2).and_then(|h| (0..h.len() / 2).map(|k| u8::from_str_radix(h.get(2 * k..2 * k + 2)?, 16).ok()).collect());
+    let (Some(unit), Some(count)) = (unit.and_then(|u| String::from_utf8(u).ok()), a.get(3).and_then(|x| x.parse::<usize>().ok())) else { return 2 };
+    let s = unit.repeat(count);
+    let r = std::panic::catch_unwind(|| {
+        let e = escape(&s).to_string();
+        let u = unescape(&e).to_string();
+        let st = strip(&s).to_string();
+        let st2 = strip(&st).to_string();
+        (u, st, st2)
+    });
+    match r {
+        Err(_) => { println!("panic"); 1 },
+        Ok((u, st, st2)) => {
+            if u != s { println!("unescape-is-not-the-inverse"); return 1; }
+            if st != ref_strip(&s) { println!("strip-differs-from-reference"); return 1; }
+            if st2 != st { println!("strip-not-idempotent"); return 1; }
+            println!("{}", if st != s { "changed" } else { "plain" });
+            0
+        },
+    }
+}
+
 fn main() {
     let a: Vec<String> = std::env::args().collect();
+    if a.get(1).map(|x| x == "text").unwrap_or(false) {
+        let _ = std::thread::spawn(|| {
+            std::thread::sleep(std::time::Duration::from_secs(120));
+            println!("hang");
+            std::process::exit(1);
+        });
+        std::panic::set_hook(Box::new(|_| {}));
+        std::process::exit(text_mode(&a));
+    }
     let (Some(cp), Some(l), Some(shape)) = (
         a.get(1).and_then(|x| u32::from_str_radix(x, 16).ok()).and_then(char::from_u32),
         a.get(2).and_then(|x| x.parse::<usize>().ok()),
